@@ -510,6 +510,81 @@ def eval_values(case):
     return Res(trans=n, viols=viols[:6], sample={'zones': [n_ for n_, z in zs], 'pairs': len(zs) ** 2})
 
 
+# ------------------------------------------------------------------ key separation
+def near_keys():
+    """pairs of requests that differ in exactly one component of the key (and therefore in what is asked for)"""
+    td = D.timedelta
+    P = []
+    for a, b in [(('N', 3600), ('N', td(seconds=3600, microseconds=500000))), (('N', 3600), ('N', -3600)),
+                 (('N', 3600), ('M', 3600)), ((None, 0), ('UTC', 0)), (('N', 59), ('N', 60)), (('N', 86399), ('N', -86399)),
+                 (('N', 0), ('N', td(microseconds=1))), (('N', td(hours=-1)), ('N', td(days=-1, seconds=82799))),
+                 (('N', 3600), ('N', 3600.25)), (('N', td(seconds=1)), ('N', td(seconds=1, microseconds=999999))),
+                 (('N', 19800), ('n', 19800))]:
+        P.append(('tzoffset', a, b))
+    for a, b in [(('GMT+3', False), ('GMT+3', True)), (('UTC-5', False), ('UTC-5', True)), (('EST5EDT', False), ('EST5EDT4', False)),
+                 (('EST5EDT', False), ('EST5EDT,M3.2.0,M11.1.0', False)), (('AAA3BBB', False), ('AAA-3BBB', False)),
+                 (('AAA3BBB,M3.2.0,M11.1.0', False), ('AAA3BBB,M3.2.0/3,M11.1.0', False)), (('EST5', False), ('est5', False)),
+                 (('UTC+3', True), ('UTC+03:30', True))]:
+        P.append(('tzstr', a, b))
+    for a, b in [('Europe/London', 'Europe/Dublin'), ('UTC', 'Asia/Tokyo'), ('EST5EDT', 'EST5EDT,M3.2.0,M11.1.0'),
+                 ('America/New_York', 'America/Toronto'), ('Etc/GMT+3', 'Etc/GMT-3')]:
+        P.append(('gettz', a, b))
+    return P
+
+
+def eval_near(case):
+    """request a, then b while a is alive (and the other way round, and a-b-a): each object must behave as a freshly
+    constructed zone of ITS OWN request does, and a repeated request returns the first object"""
+    from dateutil import tz
+    warnings.simplefilter('ignore')
+    kind, a, b = case
+    tag = uniq()
+
+    def norm(k):
+        if kind == 'tzoffset':
+            return ((tag + k[0]) if k[0] is not None and k[0] not in ('UTC',) else k[0], k[1])
+        return k
+
+    def req(k):
+        if kind == 'tzoffset':
+            return tz.tzoffset(*k)
+        if kind == 'tzstr':
+            return tz.tzstr(k[0], posix_offset=k[1])
+        return tz.gettz(k)
+
+    def model(k):
+        if kind == 'tzoffset':
+            return tz.tzoffset.instance(*k)
+        if kind == 'tzstr':
+            return tz.tzstr.instance(k[0], posix_offset=k[1])
+        return tz.gettz.nocache(k)
+    a, b = norm(a), norm(b)
+    viols = []
+    n = 0
+    for first, second in ((a, b), (b, a)):
+        if kind == 'gettz':
+            tz.gettz.cache_clear()
+        z1 = req(first)
+        z2 = req(second)
+        z3 = req(first)
+        n += 3
+        for k, z in ((first, z1), (second, z2)):
+            m = model(k)
+            if z is None or m is None:
+                if (z is None) != (m is None):
+                    viols.append({'kind': 'request-not-what-was-asked-for', 'factory': kind, 'request': repr(k), 'got': repr(z)})
+                continue
+            if behaviour(z) != behaviour(m):
+                viols.append({'kind': 'request-not-what-was-asked-for', 'factory': kind, 'request': repr(k),
+                              'after': repr(first if k == second else second), 'got': repr(z), 'expected': repr(m)})
+        if z3 is not z1 and z1 is not None:
+            viols.append({'kind': 'two-live-objects-for-one-key', 'factory': kind, 'scenario': 'near-keys', 'request': repr(first)})
+        del z1, z2, z3
+    if kind == 'gettz':
+        tz.gettz.cache_clear()
+    return Res(trans=n, viols=viols[:3], sample={'factory': kind, 'a': repr(a), 'b': repr(b)} if case[1] == ('N', 3600) else None)
+
+
 def signature(case, detail):
     return {'kind': detail.get('kind'), 'factory': detail.get('factory'), 'zone': detail.get('zone'),
             'key_is_tz_string': detail.get('key_is_tz_string')}
@@ -524,6 +599,9 @@ def replay(part, case):
         return eval_history(tuple(case)).viols
     if part == 'dfs-guard':
         return eval_dfs_guard(tuple(case)).viols
+    if part == 'near-keys':
+        return eval_near((case[0], tuple(case[1]) if not isinstance(case[1], str) else case[1],
+                          tuple(case[2]) if not isinstance(case[2], str) else case[2])).viols
     return eval_values(case).viols
 
 
@@ -555,6 +633,7 @@ def run(ctx):
             sched.append((kind, ((0,), (0,), (0,)), 2, 200000))
             sched.append((kind, aba, 2, 200000))
     ctx.explore('schedules', sched, 'eval_schedule', chunk=1)
+    ctx.explore('near-keys', near_keys(), 'eval_near', serial=True)
     ctx.explore('value-semantics', [0], 'eval_values', serial=True)
     ctx.coverage_extra.update({
         'states': ctx.counts['states'],
